@@ -1286,11 +1286,17 @@ func (l *Lowerer) buildOverrideInitExpr(expr parser.Expr) ir.OverrideInitExpr {
 // When the declared type differs from the literal's natural kind (e.g., abstract int literal
 // used as f32), this performs the actual numeric conversion (not just re-labeling bits).
 func (l *Lowerer) coerceScalarToType(kind ir.ScalarKind, bits uint64, typeHandle ir.TypeHandle) (ir.ScalarKind, uint64) {
-	t, ok := l.registry.Lookup(typeHandle)
-	if !ok {
+	// The module arena is authoritative: buildGlobalExpressions calls this after
+	// CompactTypes, when the registry still holds the handles from before compaction.
+	var inner ir.TypeInner
+	if int(typeHandle) < len(l.module.Types) {
+		inner = l.module.Types[typeHandle].Inner
+	} else if t, ok := l.registry.Lookup(typeHandle); ok {
+		inner = t.Inner
+	} else {
 		return kind, bits
 	}
-	scalar, ok := t.Inner.(ir.ScalarType)
+	scalar, ok := inner.(ir.ScalarType)
 	if !ok {
 		return kind, bits
 	}
